@@ -292,7 +292,7 @@ func main() {
 	r.Finish()
 }
 
-func laneCases(r *ev.Run) int { return r.Pick(1200, 10000) }
+func laneCases(r *ev.Run) int { return r.Pick(1000, 10000) }
 
 // ---- lane ---------------------------------------------------------------------------------------
 
@@ -438,6 +438,9 @@ func (l *lane) run(cases int, upto int) {
 				continue
 			}
 			l.r.Count("inverted_bounds_straightened", 1)
+		}
+		if q.Follower && l.follWritesOff && isWrite(q) {
+			q.Follower = false // follower writes kept timing out: do not pay the deadline again and again
 		}
 		if q.Follower && !l.hasFollower() {
 			q.Follower = false
